@@ -1254,6 +1254,11 @@ func runC04One(c *Ctx) {
 		parses := findCalls(fn, "(*ExprParser).Parse")
 		calls := findCalls(fn, "(*RuleExpression).exprError")
 		if len(calls) == 0 {
+			// no report here: fine when the error is handed to the caller, otherwise the syntax error is lost
+			if !parseErrorReturned(fn, parses) {
+				c.bad(fname+"|one syntax diagnostic", fn.Pos(), "a rejected text can pass without its syntax diagnostic: the error of Parse is neither reported nor returned")
+				nOne++
+			}
 			continue
 		}
 		nOne++
@@ -1276,7 +1281,20 @@ func runC04One(c *Ctx) {
 				}
 			}
 		}
-		if okOnce {
+		// ... and at least once: no path from the failed parse returns without the report
+		missing := ""
+		for _, pc := range parses {
+			pos, why, found := parseErrorReported(fn, pc, calls)
+			switch {
+			case !found:
+				missing = "the error result of Parse is never tested"
+			case why != "":
+				missing = why + " (return at " + p.Pos(pos) + ")"
+			}
+		}
+		if okOnce && missing != "" {
+			c.bad(fname+"|one syntax diagnostic", fn.Pos(), "a rejected text can pass without its syntax diagnostic: "+missing)
+		} else if okOnce {
 			c.ok(fname+"|one syntax diagnostic", calls[0].Pos(), "a parse error is reported once and nothing else is checked in that placeholder")
 		} else {
 			c.bad(fname+"|one syntax diagnostic", fn.Pos(), "a syntax error is not reported exactly once")
